@@ -64,14 +64,16 @@ def verify_all_dependencies_exist(phases, errors):
             for phase in phases.values()
             for inst in phase.statements}
 
-    # Check statements
+    # Check statements. Dependencies are resolved within the phase of the
+    # statement, so that is where they have to exist.
     for phase in phases.values():
+        phase_ids = {inst.id for inst in phase.statements}
         for inst in phase.statements:
             deps = set(inst.depends_on)
-            if not deps <= ids:
+            if not deps <= phase_ids:
                 errors.extend(
                     ['Dependency "{}" referenced by statement "{}" not found'
-                     .format(dep_name, inst) for dep_name in deps - ids])
+                     .format(dep_name, inst) for dep_name in deps - phase_ids])
 
     # Check phases.
     for phase_name, phase in phases.items():
